@@ -476,6 +476,36 @@ func storeWrappers() any {
 			bad("the reader returns %q for an entry that was removed from the directory", got.GetMetadata().GetName())
 		}
 	}
+	// no-clobber configured on the writer (not on the call): the second store of an identifier is
+	// refused and the entry stays what it was
+	{
+		wnc := writer.New(writer.WithStoreRetriever(backend), writer.WithStoreOptions(&storage.StoreOptions{NoClobber: true}))
+		first, second := bigDoc(1, 16), bigDoc(4, 16)
+		first.Metadata.Id, second.Metadata.Id = "urn:wrap:configured-no-clobber", "urn:wrap:configured-no-clobber"
+		if err := wnc.Store(first); err != nil {
+			bad("the first store through a no-clobber writer fails: %v", err)
+		}
+		if err := wnc.Store(second); err == nil {
+			bad("a writer configured with no-clobber stores over an existing entry without error")
+		}
+		if got, err := r.Retrieve("urn:wrap:configured-no-clobber"); err != nil || !proto.Equal(got, first) {
+			bad("after a store through a no-clobber writer over an existing entry, the entry is not the first document any more (error %v)", err)
+		}
+	}
+	// documents that carry metadata only, or an empty node list: what comes back is what was stored
+	for i, d := range []*sbom.Document{{Metadata: &sbom.Metadata{Id: "urn:wrap:metadata-only", Name: "m"}},
+		{Metadata: &sbom.Metadata{Id: "urn:wrap:empty-list"}, NodeList: &sbom.NodeList{}}} {
+		if err := w.Store(d); err != nil {
+			bad("store of a document without nodes (%d) fails: %v", i, err)
+			continue
+		}
+		if got, err := r.Retrieve(d.Metadata.Id); err != nil || !proto.Equal(got, d) {
+			bad("a document without nodes (%d) retrieved through the reader differs from the stored one: node list present %v, stored with node list present %v (error %v)", i, got.GetNodeList() != nil, d.NodeList != nil, err)
+		}
+		if got, err := backend.Retrieve(d.Metadata.Id, &storage.RetrieveOptions{}); err != nil || !proto.Equal(got, d) {
+			bad("a document without nodes (%d) retrieved through the backend differs from the stored one (error %v)", i, err)
+		}
+	}
 	// a backend without a directory refuses, and creates nothing in the working directory
 	{
 		before, _ := filepath.Glob("*.protobom*")
@@ -1001,6 +1031,9 @@ func oracleBig(op M, res any, exec func(M) any) []Finding {
 }
 
 var BigStream = &Stream{
+	// scenarios of many calls (child processes, large documents): the watchdog allows for a loaded machine;
+	// a call that blocks is still reported (the children have their own, shorter limits)
+	Timeout:    150 * time.Second,
 	Name:       "big",
 	Gen:        bigGen,
 	Exec:       ExecBig,
